@@ -456,3 +456,48 @@ def no_request_reaches_a_handler_without_reply(ctx):
             ctx.check(ok, construct, t, f'`{src(c)}` looks at the action only',
                       f'`{src(c)}` does not intercept every request whose action is {action!r}: a {action} line with a specifier or data reaches '
                       f'Dispatcher.handle_{action}, which returns None, and `result[0]` then raises outside every try - the connection handler ends', h)
+
+
+SURROGATE_SAFE = {'surrogatepass', 'backslashreplace', 'replace', 'ignore', 'xmlcharrefreplace', 'namereplace'}
+
+
+def json_text_is_encodable(ctx, f, sink):
+    """json text that is later written with a strict UTF-8 codec must be produced with ensure_ascii left at its default:
+    json.loads accepts an unpaired surrogate escape ("\\ud83d") and yields a str with a lone surrogate; with
+    ensure_ascii=False json.dumps hands it through and the strict encoder raises UnicodeEncodeError"""
+    n = 0
+    for c in calls_in(f.node):
+        if call_name(c) not in ('json.dumps', 'json.dump'):
+            continue
+        n += 1
+        ea = kwarg(c, 'ensure_ascii')
+        ascii_only = ea is None or (isinstance(ea, ast.Constant) and ea.value is True)
+        safe_sink = False
+        for e in calls_in(f.node):
+            if call_attr(e) == 'encode' or (isinstance(e.func, ast.Name) and e.func.id == 'open'):
+                errors = kwarg(e, 'errors') or (e.args[1] if call_attr(e) == 'encode' and len(e.args) > 1 else None)
+                if isinstance(errors, ast.Constant) and errors.value in SURROGATE_SAFE:
+                    safe_sink = True
+        ctx.check(ascii_only or safe_sink, f'{f.qualname}:json text survives the strict UTF-8 {sink}', c,
+                  'ensure_ascii is left at its default (every non-ASCII character, lone surrogates included, is written as an escape)',
+                  f'`{src(c)}` hands non-ASCII characters through unescaped and the {sink} encodes with the strict UTF-8 codec: a string value '
+                  'holding an unpaired surrogate (a client may send "\\\\ud83d", which json.loads accepts) raises UnicodeEncodeError '
+                  f'in the {sink}', f)
+    return n
+
+
+@rule('C07.R6b', min_instances=1)
+def reply_text_is_encodable(ctx):
+    """encode_msg_frame: the json text of a reply can always be encoded (ensure_ascii stays at its default, or the encoder
+    has an error handler): the encode runs outside any handler, an exception there ends the connection handler"""
+    m = ctx.m
+    n = 0
+    for q in (f'{IFACE}.encode_msg_frame', f'{IFACE}.ws.encode_msg_frame'):
+        try:
+            f = m.func(q)
+        except AnchorMissing:
+            continue
+        ctx.analysed(f)
+        n += json_text_is_encodable(ctx, f, 'frame encoder')
+    if not n:
+        raise AnchorMissing('json.dumps in encode_msg_frame not found')
